@@ -1,39 +1,46 @@
-(* Recorded findings for C19 (findings_proposed/C19.txt).  The README acceptance table (Spec/CliSpec.v documented) is
-   false of the faithful model in three ways; each refutation names a concrete (key, JSON value).  If this file stops
-   compiling a finding is stale, which the check reports as such (it is not a violation). *)
+(* Recorded findings for C19 (findings_proposed/C19.txt), as they stand after the repairs of the boolean, safe_area, fps,
+   colour, program_start_tc, max_row_count and font-family decoders.  The README acceptance table (Spec/CliSpec.v
+   documented) is still false of the faithful model in two ways; each refutation names concrete (key, JSON value) pairs.
+   If this file stops compiling a finding is stale, which the check reports as such (it is not a violation). *)
 From Coq Require Import String.
 From TT Require Import Base.Prelude Base.CliTypes Gen.CliUnicode Model.Cli Spec.CliSpec.
 
-(* bool-decoders-accept-anything: "no" is accepted for srt_writer.text_formatting and means true;
-   null means false although the documented default is true *)
-Theorem C19_config_accepts_bool_refuted :
-  exists k v, v <> JNull /\ accepts k v = true /\ documented k v = false /\
-              decode k v = Ok (CBool true) /\ decode k JNull = Ok (CBool false) /\ default_srt = true.
-Proof. exists KTextFormatting, (JStr (T "no")). repeat split; try reflexivity. discriminate. Qed.
-
-(* undocumented-values-accepted: lcd.safe_area "10" / 10.7 / true, fps "-25/1", color "rgb(300,0,0)" and "#FF0000zz",
-   program_start_tc "10x00y00z00xyz" *)
+(* undocumented-values-accepted (what is left): log_level takes any logging level name or integer, document_lang any
+   string, scc_reader.text_align / "TCP" / "MNR" any letter case, program_start_tc any separators (drop-frame pattern with an
+   unescaped dot), colours any letter case of a name and white space around rgb() components (both pinned by
+   test_imsc_color_parser), font_stack any string with a family-like token *)
 Theorem C19_config_accepts_lenient_refuted :
-  Forall (fun kv => accepts (fst kv) (snd kv) = true /\ documented (fst kv) (snd kv) = false)
-    [(KSafeArea, JStr (T "10")); (KSafeArea, JFloat 107 10); (KSafeArea, JBool true); (KFps, JStr (T "-25/1")); (KFps, JStr (T "0/1"));
-     (KColor, JStr (T "rgb(300,0,0)")); (KBgColor, JStr (T "#FF0000zz")); (KStartTc, JStr (T "10x00y00z00xyz"));
-     (KMaxRowCount, JBool true); (KSccTextAlign, JStr (T "LEFT")); (KLogLevel, JInt 10); (KDocumentLang, JStr (T "not a tag"))].
+  Forall (fun kv => in_table (fst kv) (snd kv) = true /\ accepts (fst kv) (snd kv) = true /\ documented (fst kv) (snd kv) = false /\
+                    trigger_lenient (fst kv) (snd kv) = true)
+    [(KLogLevel, JInt 10); (KLogLevel, JStr (T "DEBUG")); (KDocumentLang, JStr (T "not a tag")); (KSccTextAlign, JStr (T "LEFT"));
+     (KStartTc, JStr (T "tcp")); (KStartTc, JStr (T "10x00y00z00")); (KMaxRowCount, JStr (T "mnr"));
+     (KColor, JStr (T "RED")); (KBgColor, JStr (T "rgb( 1 , 2 , 3 )")); (KFontStack, JStr (T "a,,b")); (KFontStack, JStr (T "'a"))].
 Proof. repeat constructor. Qed.
-Theorem C19_safe_area_coerced : decode KSafeArea (JFloat 107 10) = Ok (CInt 10) /\ decode KColor (JStr (T "rgb(300,0,0)")) = Ok (CColor 300 0 0 255).
+(* ... and what the repairs closed: every one of the formerly accepted values is rejected now *)
+Theorem C19_formerly_accepted_now_rejected :
+  Forall (fun kv => accepts (fst kv) (snd kv) = false /\ documented (fst kv) (snd kv) = false /\ trigger (fst kv) (snd kv) = false)
+    [(KTextFormatting, JStr (T "no")); (KCueId, JInt 0); (KProgressBar, JStr (T "false")); (KPreserveTextAlign, JArr [JInt 0]);
+     (KSafeArea, JStr (T "10")); (KSafeArea, JFloat 107 10); (KSafeArea, JBool true); (KFps, JStr (T "-25/1")); (KFps, JStr (T "0/1"));
+     (KFps, JStr (T " 25 / 1 ")); (KFps, JStr (T "2_5/1")); (KColor, JStr (T "rgb(300,0,0)")); (KBgColor, JStr (T "#FF0000zz"));
+     (KColor, JStr (T "rgb(1,2,3)x")); (KStartTc, JStr (T "10:00:00:00xyz")); (KMaxRowCount, JBool true)].
+Proof. repeat constructor. Qed.
+
+(* documented-values-rejected (what is left): digit strings longer than CPython's int() limit *)
+Theorem C19_config_accepts_rejected_refuted :
+  exists k v, documented k v = true /\ accepts k v = false /\ trigger_rejected k v = true.
+Proof. exists KFps, (JStr (rep 48 4300 ++ T "25/1")). vm_compute. repeat split; reflexivity. Qed.
+(* ... and the one-character font family is accepted now *)
+Theorem C19_short_family_accepted : accepts KFontStack (JStr (T "a")) = true /\ accepts KFontStack (JStr (T "x, y")) = true.
 Proof. split; reflexivity. Qed.
 
-(* documented-values-rejected: a one-character font family *)
-Theorem C19_config_accepts_rejected_refuted :
-  exists k v, documented k v = true /\ accepts k v = false.
-Proof. exists KFontStack, (JStr (T "a")). split; reflexivity. Qed.
-
-(* observation (not a separate finding): README does not say what an explicit null means; for most keys it is
-   "leave the default", for two it is an uncaught AttributeError / TypeError, for the bool keys it is false *)
+(* observation (not a separate finding): README does not say what an explicit null means outside the colours; for five
+   keys it is "not specified", for the true | false keys and safe_area it is now an error like any other non-boolean /
+   non-integer, for scc_reader.text_align it is an uncaught AttributeError *)
 Theorem C19_null_handling :
-  decode KSccTextAlign JNull = Raise EAttribute /\ decode KSafeArea JNull = Raise EType /\
-  decode KCueId JNull = Ok (CBool false) /\ decode KFps JNull = Ok CNone /\ decode KColor JNull = Ok CNone.
+  decode KSccTextAlign JNull = Raise EAttribute /\ decode KSafeArea JNull = Raise EValue /\
+  decode KCueId JNull = Raise EValue /\ decode KFps JNull = Ok CNone /\ decode KColor JNull = Ok CNone /\
+  decode KLogLevel JNull = Ok CNone /\ decode KStartTc JNull = Ok CNone.
 Proof. repeat split; reflexivity. Qed.
 
-Print Assumptions C19_config_accepts_bool_refuted.
 Print Assumptions C19_config_accepts_lenient_refuted.
 Print Assumptions C19_config_accepts_rejected_refuted.
